@@ -80,7 +80,7 @@ def build(R, repo, builddir):
     if logs:
         raise RuntimeError('\n'.join(logs)[-3000:])
     exe = os.path.join(builddir, 'Qsmtpd')
-    rc, out = R.sh(['gcc', '-fsanitize=address,undefined'] + objs + ['-Wl,--wrap=sleep', '-Wl,--wrap=time', '-Wl,--wrap=gettimeofday', '-Wl,--wrap=poll',
+    rc, out = R.sh(['gcc', '-fsanitize=address,undefined'] + objs + ['-Wl,--wrap=sleep', '-Wl,--wrap=time', '-Wl,--wrap=gettimeofday', '-Wl,--wrap=poll', '-Wl,--wrap=waitpid',
                                                                       '-o', exe, '-lssl', '-lcrypto'], timeout=300)
     if rc != 0:
         raise RuntimeError(out[-3000:])
@@ -177,7 +177,13 @@ def run_case(h, R, line, idx):
             env.update(TCP6REMOTEIP='::ffff:192.0.2.1', TCP6LOCALIP='::ffff:192.0.2.' + cfg['lip'])
         else:
             env.update(TCP6REMOTEIP='2001:db8::1', TCP6LOCALIP='2001:db8::2')
-        env.update(TCPREMOTEPORT='1234', TCPLOCALPORT=cfg['port'], QMAILQUEUE=h['qq'], QQ_MSG=os.path.join(d, 'qq.msg'),
+        qqbin = h['qq']
+        if cfg.get('qqexec') == '0':
+            # $QMAILQUEUE cannot be executed: the child ends in _exit(120); whether queue_init() sees that is forced by the plan (ns / nh)
+            qqbin = os.path.join(d, 'notexecutable')
+            open(qqbin, 'w').write('#!/bin/sh\nexit 0\n')
+            os.chmod(qqbin, 0o644)
+        env.update(TCPREMOTEPORT='1234', TCPLOCALPORT=cfg['port'], QMAILQUEUE=qqbin, QQ_MSG=os.path.join(d, 'qq.msg'),
                    QQ_ENV=os.path.join(d, 'qq.env'), QQ_PLAN=os.path.join(d, 'qqplan'), QQ_COUNT=os.path.join(d, 'qqcount'))
         a, b = socket.socketpair()
         errf = open(os.path.join(d, 'stderr'), 'wb')
@@ -239,7 +245,9 @@ def run_case(h, R, line, idx):
                 if n354 > seen354:
                     k = n354 - 1
                     seen354 = n354
-                    pl = plan[k] if k < len(plan) else 'ok'
+                    # an invocation that queue_init() sees dead ("ns") gets no 354: the j-th 354 belongs to the j-th other entry
+                    live = [x for x in plan if x != 'ns']
+                    pl = live[k] if k < len(live) else 'ok'
                     early = pl.startswith('die:b') or (pl.startswith('die:m:') and int(pl.split(':')[2]) <= 150)
                     if early:
                         t_end = time.time() + 3
